@@ -3,7 +3,7 @@ Applied at random to the SQL of the sequential families, so that every family al
 import re
 
 KEYWORDS = ["SELECT", "DISTINCT", "FROM", "WHERE", "GROUP BY", "HAVING", "WITH", "ORDER BY", "LIMIT", "AND", "OR", "AS", "JOIN", "LEFT", "ON", "DESC", "ASC",
-            "CASE", "WHEN", "THEN", "ELSE", "END", "LIKE", "IS", "NOT", "NULL", "OVER", "PARTITION BY", "TRUE", "FALSE"]
+            "CASE", "WHEN", "THEN", "ELSE", "END", "LIKE", "IS", "NOT", "NULL", "OVER", "PARTITION BY", "TRUE", "FALSE", "true", "false"]
 
 
 KEEP = {"vboom", "vboomsum", "in", "and", "or", "not", "as", "on", "when", "then", "else", "over", "with", "by", "like", "is"}      # user functions registered under one spelling; words that may precede "("
